@@ -17,7 +17,7 @@ RULE = ("full product over pairs of operations (ids x paths x tag layout) and pa
         "collision alphabets; deviation-bounded builder (d<=2 quick, d<=3 thorough) over 3 operations / 3 schemas with broken "
         "units, unsupported or broken responses and request media types, dependants of broken schemas at distance 1 and 2; "
         "oracle = census: every operation is served by its own generated module (found by calling it) or named by a diagnostic, "
-        "every object/enum schema has its own class or is named by a diagnostic; non-trivial = generated and census taken; every ordered selection of 1-3 request media types in one body; path items with shared (good / 5 broken) parameters x 4 methods each inheriting / re-declaring / absent; every builder document also under generate_all_tags; operations with an explicit empty tag list or with two tags; typed responses next to content-less statuses, request bodies on all eight methods (inline / by reference), broken-root dependant chains no operation mentions x related names x edge kinds; the census matches whole name tokens; inline objects / enumerations nested in inline objects whose derived class names coincide (5 places x 6 naming routes x 2 kinds): each keeps a class of its own or is diagnosed")
+        "every object/enum schema has its own class or is named by a diagnostic; non-trivial = generated and census taken; every ordered selection of 1-3 request media types in one body; path items with shared (good / 5 broken) parameters x 4 methods each inheriting / re-declaring / absent; every builder document also under generate_all_tags; operations with an explicit empty tag list or with two tags; typed responses next to content-less statuses, request bodies on all eight methods (inline / by reference), broken-root dependant chains no operation mentions x related names x edge kinds; the census matches whole name tokens; every parameter declared by an operation or its path item (also by reference, also the same name in another location) is offered by the function or named; inline objects / enumerations nested in inline objects whose derived class names coincide (5 places x 6 naming routes x 2 kinds): each keeps a class of its own or is diagnosed")
 FLOOR = 0.5
 ASSUMPTIONS = ["a diagnostic 'names' an item when the method and path (or the schema name) occur in its header+detail+data",
                "which class belongs to a component is read from the generator's own claim and then verified on the tree"]
@@ -250,8 +250,8 @@ def _pathitem_cases():
     methods = ("get", "put", "post", "delete")
     for sname, shared in SHARED_PARAMS.items():
       for flavour in (("plain", "with-warnings") if sname == "good" else ("plain",)):
-        for modes in itertools.product(("inherits", "overrides", "absent"), repeat=len(methods)):
-            if modes.count("absent") > 2:
+        for modes in itertools.product(("inherits", "overrides", "other-location", "absent"), repeat=len(methods)):
+            if modes.count("absent") > 2 or modes.count("other-location") > 1 or (modes.count("other-location") and sname not in ("good", "optional-path")):
                 continue
             path = "/shared/{pp}" if sname == "optional-path" else "/shared"
             item = {"parameters": copy.deepcopy(shared if isinstance(shared, list) else [shared])}
@@ -264,6 +264,8 @@ def _pathitem_cases():
                     if m in ("put", "post"):
                         op["requestBody"] = {"content": {"application/json": {"schema": {"type": "object", "properties": {"a": {"type": "string"}}}},
                                                          "application/xml": {"schema": {"type": "string"}}, "text/csv": {"schema": {"type": "string"}}}}
+                if mode == "other-location":      # the operation declares the SAME NAME in another location: both stay
+                    op["parameters"] = [{"name": "q", "in": "header", "schema": {"type": "string"}}] if sname != "optional-path" else [{"name": "pp", "in": "query", "schema": {"type": "string"}}]
                 if mode == "overrides":      # a valid operation-level parameter with the same name and location
                     op["parameters"] = [{"name": "pp", "in": "path", "required": True, "schema": {"type": "string"}}] if sname == "optional-path" else \
                         [{"name": "q", "in": "query", "schema": {"type": "boolean"}}]
@@ -482,6 +484,37 @@ def run_case(p):
                 for m, path, _op in doc_ops:
                     if m == q["method"] and _tmpl_regex(path).match(got):
                         served.setdefault((m, path), set()).add(f)
+        # ---- parameters: every parameter an operation or its path item declares is offered by the generated function or named
+        comp_params = (doc.get("components", {}) or {}).get("parameters") or {}
+
+        def _resolve(prm):
+            hops = 0
+            while isinstance(prm, dict) and "$ref" in prm and hops < 5:
+                ref_ = prm["$ref"]
+                prm = comp_params.get(ref_.rsplit("/", 1)[-1]) if isinstance(ref_, str) and ref_.startswith("#/components/parameters/") else None
+                hops += 1
+            return prm if isinstance(prm, dict) and isinstance(prm.get("name"), str) and prm.get("in") in ("query", "header", "cookie", "path") else None
+        for m, path, op in doc_ops:
+            files = served.get((m, path)) or set()
+            if len(files) != 1 or not isinstance(op, dict):
+                continue
+            f = next(iter(files))
+            e = next((x for x in res.endpoints if f == f"api/{x['tag']}/{x['module']}.py" and x["method"].upper() == m), None)
+            if e is None:
+                continue
+            declared = {}
+            for level, lst in (("path-item", (doc["paths"][path].get("parameters") or [])), ("operation", (op.get("parameters") or []))):
+                for prm in lst if isinstance(lst, list) else []:
+                    r_ = _resolve(prm)
+                    if r_ is not None:
+                        declared[(r_["name"], r_["in"])] = (level, r_)
+            offered = {(q_["name"], loc) for loc in ("path", "query", "header", "cookie") for q_ in e[f"{loc}_params"]}
+            for (pname, loc), (level, r_) in declared.items():
+                if (pname, loc) in offered or _names(diag, pname):
+                    continue
+                flavour = "no-schema" if "schema" not in r_ else ("also-declared-elsewhere" if sum(1 for (n2, _l2) in declared if n2 == pname) > 1 else "plain")
+                viol.append({"oracle": "census-parameter", "site": loc, "key": f"{key}/{level}/{flavour}",
+                             "detail": f"{m} {path}: the {level}-level {loc} parameter {pname!r} is neither offered by {f} ({sorted(offered)}) nor named in a diagnostic"})
         # ---- schemas (inside the sandbox: classes must import)
         claims = {}
         for kind, lst in (("model", res.models), ("enum", res.enums)):
